@@ -89,6 +89,8 @@ class ImportXml:
         if len(g.V.cands("own", g.sess)) > g.cfg.get("eml_universe", 400):
             return None
         op = {"k": "import_xml", "s": g.sess, "clean": rng.random() < 0.7, "collapse": rng.random() < 0.3}
+        if rng.random() < 0.2:
+            op["legacy"] = True        # the older importer, mp_io.from_xml
         if r < 0.5 and own:
             h = rng.choice(own)
             if len(g.snap.subtree(h)) > 300:
@@ -125,7 +127,10 @@ class ImportXml:
             xml = corpus(op["doc"])
         else:
             xml = op["xml"]
-        n = mio.from_xml(xml, clean=op["clean"], collapse=op["collapse"])
+        if op.get("legacy"):
+            n = mpio.from_xml(xml)
+        else:
+            n = mio.from_xml(xml, clean=op["clean"], collapse=op["collapse"])
         if isinstance(n, Node):
             W.handle(n, op["s"])
         return n
